@@ -38,15 +38,23 @@ class Extractor:
             if s['k'] != 'Let' or s.get('init') is None:
                 if s['k'] == 'Item':
                     continue
+                ge = s.get('e') if s['k'] in ('Expr', 'Semi') else None
+                if ge is not None and ge['k'] == 'If' and ge.get('els') is None and hirq.diverges(ge['then']) and \
+                        any(n['k'] == 'Ret' for n, c in walk(ge['then'])):
+                    # `if <condition on what was parsed so far> { return Err(..) }`: a semantic rejection
+                    seq.append(('guard', ge['cond']))
+                    continue
                 return ('unknown', 'statement %s in a parser body' % s['k'])
             init = s['init']
             if init['k'] == 'Try':
                 g = self.apply_grammar(init['e'], cur)
                 if g[0] == 'unknown':
                     return g
-                seq.append(g)
-                # the remainder is the first component of the bound tuple
+                # the remainder is the first component of the bound tuple; the value binding names this element for guards
                 pat = s['pat']
+                if pat['k'] == 'PTuple' and len(pat['pats']) == 2 and pat['pats'][1]['k'] == 'Bind':
+                    g = ('bound', pat['pats'][1]['bind'], g)
+                seq.append(g)
                 if pat['k'] == 'PTuple' and pat['pats'] and pat['pats'][0]['k'] == 'Bind':
                     cur = {pat['pats'][0]['bind']}
                 else:
@@ -153,10 +161,14 @@ class Extractor:
 
 
 def flat(g):
+    if g[0] == 'bound':
+        return ('bound', g[1], flat(g[2]))
     if g[0] == 'seq':
         out = []
         for x in g[1]:
             x = flat(x)
+            if x[0] == 'bound' and x[2][0] == 'seq':
+                x = x[2]              # the value binding of a whole sub-sequence is of no use to a guard
             if x[0] == 'seq':
                 out.extend(x[1])
             else:
@@ -172,6 +184,10 @@ def flat(g):
 
 def show(g):
     k = g[0]
+    if k == 'bound':
+        return show(g[2])
+    if k == 'guard':
+        return '&guard'
     if k == 'lit':
         return repr(g[1].decode('latin1'))
     if k == 'class':
@@ -192,6 +208,8 @@ def first_byte(g, rules, depth=0):
     """first literal byte of g if it is statically a single literal byte, else None"""
     if depth > 8:
         return None
+    if g[0] == 'bound':
+        return first_byte(g[2], rules, depth + 1)
     if g[0] == 'lit' and g[1]:
         return g[1][0]
     if g[0] == 'seq' and g[1]:
@@ -204,6 +222,10 @@ def first_byte(g, rules, depth=0):
 
 def equal(a, b, rules_a, rules_b, classmap):
     """Structural equality; `alt` is compared unordered when every alternative but at most one starts with a distinct literal byte."""
+    if a[0] == 'bound':
+        return equal(a[2], b, rules_a, rules_b, classmap)
+    if b[0] == 'bound':
+        return equal(a, b[2], rules_a, rules_b, classmap)
     if a[0] != b[0]:
         return False, '%s vs %s' % (show(a), show(b))
     k = a[0]
@@ -248,3 +270,135 @@ def equal(a, b, rules_a, rules_b, classmap):
                 return ok, 'ordered choice differs: ' + why
         return True, ''
     return False, 'unknown construct %s' % (a,)
+
+
+# ---------------------------------------------------------------------------------------
+# Language-level comparison.  Two grammars that draw the function boundaries differently (an alternative split into two
+# functions or merged into one with optional parts and a guard) are compared through a normal form: the set of atom sequences
+# a rule denotes when every non-recursive reference is expanded, optional parts are taken or not, and guards filter the
+# combinations (a guard is a boolean combination of is_some()/is_none() on the values of optional parts, evaluated on each
+# combination).  Atoms: single literal bytes, byte classes, repetitions and checked groups (with the normal form of their
+# body), references to recursive rules (by name).
+
+class NoNormalForm(Exception):
+    pass
+
+def rule_graph(rules, name_of):
+    g = {}
+    def refs(x, out):
+        if x[0] == 'ref':
+            out.add(name_of(x[1]))
+        elif x[0] == 'bound':
+            refs(x[2], out)
+        elif x[0] in ('seq', 'alt'):
+            for y in x[1]:
+                refs(y, out)
+        elif x[0] in ('star', 'plus', 'opt', 'check'):
+            refs(x[1], out)
+    for n, body in rules.items():
+        out = set()
+        refs(body, out)
+        g[name_of(n)] = out
+    return g
+
+def recursive_rules(rules, name_of=lambda n: n):
+    g = rule_graph(rules, name_of)
+    rec = set()
+    for n in g:
+        seen, stack = set(), list(g.get(n, ()))
+        while stack:
+            m = stack.pop()
+            if m == n:
+                rec.add(n); break
+            if m in seen:
+                continue
+            seen.add(m)
+            stack.extend(g.get(m, ()))
+    return rec
+
+def _guard_true(facts, cond, present):
+    k = cond['k']
+    if k == 'Binary' and cond['op'] in ('And', 'Or'):
+        a, b = _guard_true(facts, cond['l'], present), _guard_true(facts, cond['r'], present)
+        return (a and b) if cond['op'] == 'And' else (a or b)
+    if k == 'Unary' and cond.get('op') == 'Not':
+        return not _guard_true(facts, cond['e'], present)
+    if k == 'MethodCall' and cond['name'] in ('is_none', 'is_some') and not cond['args']:
+        b = hirq.local_of(cond['recv'])
+        if b in present:
+            return present[b] == (cond['name'] == 'is_some')
+    raise NoNormalForm('guard condition outside is_some()/is_none() of optional parts')
+
+def language(facts, g, lookup, rec, classmap, depth=0):
+    """set of tuples of atoms"""
+    if depth > 60:
+        raise NoNormalForm('expansion too deep')
+    k = g[0]
+    if k == 'bound':
+        return language(facts, g[2], lookup, rec, classmap, depth)
+    if k == 'lit':
+        return {tuple(('b', x) for x in g[1])}
+    if k == 'class':
+        name = classmap.get(g[1], g[1]) if classmap is not None else g[1]
+        return {(('c', name),)}
+    if k == 'ref':
+        n = g[1].split('::')[-1]
+        if n in rec:
+            return {(('r', n),)}
+        body = lookup(n)
+        if body is None:
+            raise NoNormalForm('reference to an unknown rule ' + n)
+        return language(facts, body, lookup, rec, classmap, depth + 1)
+    if k in ('star', 'plus'):
+        return {((k, frozenset(language(facts, g[1], lookup, rec, classmap, depth + 1))),)}
+    if k == 'check':
+        return {(('check', '', frozenset(language(facts, g[1], lookup, rec, classmap, depth + 1))),)}
+    if k == 'opt':
+        return {()} | language(facts, g[1], lookup, rec, classmap, depth + 1)
+    if k == 'alt':
+        out = set()
+        for x in g[1]:
+            out |= language(facts, x, lookup, rec, classmap, depth + 1)
+        return out
+    if k == 'seq':
+        combos = [((), {})]          # (atoms so far, presence of bound optional parts)
+        for el in g[1]:
+            nxt = []
+            if el[0] == 'guard':
+                for atoms, pres in combos:
+                    if not _guard_true(facts, el[1], pres):       # the guard rejects when its condition holds
+                        nxt.append((atoms, pres))
+                combos = nxt
+                continue
+            bind = el[1] if el[0] == 'bound' else None
+            inner = el[2] if el[0] == 'bound' else el
+            if inner[0] == 'opt' and bind is not None:
+                alts = [((), False)] + [(t, True) for t in language(facts, inner[1], lookup, rec, classmap, depth + 1)]
+            else:
+                alts = [(t, None) for t in language(facts, inner, lookup, rec, classmap, depth + 1)]
+            for atoms, pres in combos:
+                for t, p in alts:
+                    pr = pres if p is None else dict(pres, **{bind: p})
+                    nxt.append((atoms + t, pr))
+            combos = nxt
+            if len(combos) > 5000:
+                raise NoNormalForm('too many combinations')
+        return {atoms for atoms, _p in combos}
+    if k == 'guard':
+        raise NoNormalForm('guard outside a sequence')
+    raise NoNormalForm('construct %s' % (g,))
+
+def show_seq(t):
+    out = []
+    for a in t:
+        if a[0] == 'b':
+            out.append(chr(a[1]) if 32 <= a[1] < 127 else '\\x%02x' % a[1])
+        elif a[0] == 'c':
+            out.append('<%s>' % str(a[1]).split('::')[-1])
+        elif a[0] == 'r':
+            out.append(' %s ' % a[1])
+        elif a[0] in ('star', 'plus'):
+            out.append('(%s)%s' % ('|'.join(sorted(show_seq(x) for x in a[1]))[:40], '*' if a[0] == 'star' else '+'))
+        else:
+            out.append('{%s}' % '|'.join(sorted(show_seq(x) for x in a[2]))[:40])
+    return ''.join(out)
